@@ -580,13 +580,14 @@ M("b3-input-wires-unchecked", "C11", "fire B3", "src/convert.rs",
 """, "", "a gate reading a wire beyond the declared count panics")
 
 # ---------------------------------------------------------------- C09
+REVERT("revert-range-literal-signed-gate", "C09", "fire L14", "9da2990", "pre-fix tree: is_of_type accepts a Range only for unsigned element types while the checker re-types ranges for signed ones")
 REVERT("revert-numeric-range", "C09", "fire L1", "45196da", "pre-fix tree: out-of-range numbers accepted and truncated")
 REVERT("revert-enum-arity", "C09", "fire L2", "2937f1e", "pre-fix tree: enum literal arity unchecked")
 REVERT("revert-struct-gate", "C09", "fire L3", "73e4da1", "gate keyed by name only: a duplicated field hides a missing one, the writer panics")
 REVERT("revert-struct-writer-order", "C09", "fire L3", "151041d", "writer encodes struct fields in literal order behind an order-insensitive gate")
 M("revert-range-checked-sub", "C09", "fire L5", "src/literal.rs",
-  """                    && max.checked_sub(*min) == Some(*size as u64)""",
-  """                    && max - min == *size as u64""", "pre-fix form of 6e0d291: max - min underflows in the gate")
+  """                max.checked_sub(*min) == Some(*size as u64)""",
+  """                max - min == *size as u64""", "pre-fix form of 6e0d291: max - min underflows in the gate")
 M("l4-own-tag-width", "C09", "fire L4", "src/literal.rs",
   """                let enum_def = checked.enum_defs.get(enum_name).unwrap();
                 let tag_size = enum_tag_size(enum_def);
@@ -617,6 +618,7 @@ M("l2-tuple-guard-removed", "C09", "fire L2", "src/literal.rs",
   """            (Literal::Tuple(fields1), Type::Tuple(fields2)) => {""", "tuple literals with missing components accepted")
 
 # ---------------------------------------------------------------- C17
+REVERT("revert-pattern-both-bounds", "C17", "fire T15", "18041d9", "pre-fix tree: a range pattern's lower bound is only compared with min, its upper bound only with max")
 REVERT("revert-irrefutable-bindings", "C17", "fire T4", "a9fb7c7", "pre-fix tree: refutable let / for patterns accepted")
 M("t1-if-condition-error-dropped", "C17", "fire T1", "src/check.rs",
   """                        if let Err(e) = condition {
@@ -889,6 +891,7 @@ M("a1-shift-no-raise-for-signed", "C03", "fire A1", "src/compile.rs",
                 bits_unshifted""", "signed shifts by >= width no longer raise")
 
 # ---------------------------------------------------------------- C08
+REVERT("revert-pattern-both-bounds-c08", "C08", "fire M9", "18041d9", "pre-fix tree: inverted range patterns with a bound outside the type match values")
 REVERT("revert-signed-split", "C08", "fire M2", "4c5c3ff", "pre-fix tree: signed catch-all query not split, negative bounds dropped")
 M("m1-selector-is-match-only", "C08", "fire M1", "src/compile.rs",
   """                    let no_prev_match = circuit.push_not(has_prev_match);
@@ -2536,7 +2539,7 @@ M("l8-quiet-peek-form", "C09", "quiet", "src/parse.rs",
             }""", "behaviour-preserving: exhaustion asked with peek inside one match")
 REVERT("revert-parse-arg-const-size", "C09", "fire L10", "b3e4698", "pre-fix tree: parse_arg tests against the unresolved `[T; N]` parameter type")
 M2("revert-range-bounds-gate", "C09", "fire L1 L11", [
-  ("src/literal.rs", """                    && num_ty.max().is_none_or(|ty_max| max.saturating_sub(1) <= ty_max)""", ""),
+  ("src/literal.rs", """                    && ty_max.is_none_or(|ty_max| max.saturating_sub(1) <= ty_max)""", ""),
   ("src/check.rs", """                // the last element must be representable by the element type:
                 if num_ty.max().is_some_and(|max| to - 1 > max) {
                     let e = TypeErrorEnum::InvalidRange(*from, *to);
@@ -2558,11 +2561,11 @@ M("l11-untyped-range-unchecked", "C09", "fire L11", "src/check.rs",
   """                let _ = max;
                 *num_ty = lowered_as;""", "an untyped range takes on the element type without a range check: `253..257` as [u8; 4] wraps")
 M("l1-range-gate-off-by-type", "C09", "fire L1", "src/literal.rs",
-  """                    && num_ty.max().is_none_or(|ty_max| max.saturating_sub(1) <= ty_max)""",
-  """                    && max.saturating_sub(1) <= u64::MAX""", "range gate compares with a constant instead of the element type's max")
+  """                    && ty_max.is_none_or(|ty_max| max.saturating_sub(1) <= ty_max)""",
+  """                    && ty_max.is_none_or(|_| max.saturating_sub(1) <= u64::MAX)""", "range gate compares with a constant instead of the element type's max")
 M("l1-quiet-range-gate-match", "C09", "quiet", "src/literal.rs",
-  """                    && num_ty.max().is_none_or(|ty_max| max.saturating_sub(1) <= ty_max)""",
-  """                    && match num_ty.max() {
+  """                    && ty_max.is_none_or(|ty_max| max.saturating_sub(1) <= ty_max)""",
+  """                    && match ty_max {
                         Some(ty_max) => *max == 0 || *max - 1 <= ty_max,
                         None => true,
                     }""", "behaviour-preserving: the same gate written as a match")
